@@ -3,6 +3,7 @@ package main
 import (
 	"encoding/json"
 	"errors"
+	"fmt"
 	"os"
 	"sync"
 
@@ -180,6 +181,12 @@ func c12RunWith(c *Case, withText bool) []any {
 	c12Formats.Do(func() {
 		openapi3.DefineIPv4Format()
 		openapi3.DefineIPv6Format()
+		openapi3.DefineStringFormatValidator("x-wrapped", openapi3.NewCallbackValidator(func(s string) error {
+			if err := openapi3.NewIPValidator(true).Validate(s); err != nil {
+				return fmt.Errorf("endpoint address: %w", err)
+			}
+			return nil
+		}))
 		openapi3.DefineStringFormatValidator("x-even-length", openapi3.NewCallbackValidator(func(s string) error {
 			if len(s)%2 != 0 {
 				return errors.New("odd length")
